@@ -44,6 +44,14 @@ CHECKS = {
         technique="TLA+ spec DecMT.tla (stage/row protocol, start flags, motion-field and end-of-frame barriers) checked exhaustively by TLC for 2-3 threads x 2-3 rows x 2 frames incl. liveness; real decoder bound observationally via Observe.tla (threads 1..8 under yield perturbation must equal the single-thread pictures; clean teardown)",
         text="Each-row-once, stage ordering, no stale start flag, reset-behind-barrier and completion are invariants/liveness of DecMT.tla; the code is compared with it only through its outputs.",
         note="No per-row trace hooks in the decoder; C11 data races not judged; oversubscribed regime is a recorded finding.", design="3.7, 4 (C09)"),
+    "C11": dict(category="exploration",
+        technique="trace validation against TLA+ spec Session.tla (a run is a complete session: init, sends, EOS, one packet per picture without error flags, drained, teardown) of encodes executed in the ASan+UBSan build under a wall-clock timeout, over configurations accepted per ParamDomain.tla x contents x sizes",
+        text="Memory safety and undefined behaviour are observed by the sanitizer run-time, termination by the timeout, completion/error packets by Session.tla on every API event; the space (configuration x content x size) is sampled.",
+        note="UBSan without alignment/shift groups; 2-pass not exercised; large pictures only in thorough; each sanitizer finding of the unchanged tree is listed by file and report class in known_findings.json.", design="4 (C11)"),
+    "C12": dict(category="model_checking",
+        technique="TLA+ spec ParamDomain.tla (documented domain of the configuration structure: ranges, mode-dependent applicability, coupled constraints, values the documentation sources dispute); TLC enumerates the case space (boundary sweeps of every documented field + complete products of the coupled groups), each case is executed on the real svt_av1_enc_set_parameter, and TLC judges every recorded row (stored configuration, return code) with Verdict",
+        text="Finite case space of the model enumerated completely and every case executed: ~5100 configurations in quick (thorough adds 20000 seeded random 2-3 field combinations and the ASan build); accept/reject verdicts are decided by the specification from the configuration as stored in the structure.",
+        note="Documented domain transcribed by hand (citations per field in the spec); disputed values are not judged; rc_twopass_stats_in buffer not varied.", design="3.11, 4 (C12)"),
     "C13": dict(category="model_checking",
         technique="trace validation against Observe.tla: every declared configuration field after init_handle (list generated from the API header) and the output of an encode with the returned defaults must be independent of the prior memory contents",
         text="The model statement is one line (InitHandle assigns every field); the enumeration fields x prefill patterns is complete for the listed patterns.",
